@@ -89,7 +89,9 @@ func (h *transportHandler) HandleLinkLost(lnk link.Link) {
 	h.c.bcast.HoldLockMaybeAsync(func(broadcast func(), getWaitCh func() <-chan struct{}) {
 		// fast path: clear by uuid
 		luuid := lnk.GetUUID()
-		if el, elOk := h.c.links[luuid]; elOk {
+		// only the tracked link itself: a lost event for a link that was already
+		// replaced by a newer one with the same uuid must not flush the newer link.
+		if el, elOk := h.c.links[luuid]; elOk && el.lnk == lnk {
 			delete(h.c.links, luuid)
 			h.c.flushEstablishedLink(el, false)
 			return
